@@ -1,8 +1,314 @@
-// Model-side stream constructors and consumers (filled in by the `stream` profile).
+// Model-side stream constructors and consumers. A finite stream is its list of remaining elements
+// (computed eagerly from the documented enumeration order); an infinite stream is its recurrence.
 
 use crate::model::*;
 use crate::val::*;
+use num::bigint::BigInt;
+use num::{Signed, ToPrimitive, Zero};
+use std::rc::Rc;
 
-pub fn call_stream_builtin(_m: &mut Model, _site: &ScopeRef, name: &str, _args: Vec<V>) -> R<V> {
-    unknown_(&format!("builtin not modelled: {}", name))
+fn throw<T>(m: &str) -> R<T> {
+    throw_(m)
 }
+fn unknown<T>(m: &str) -> R<T> {
+    unknown_(m)
+}
+
+const MAX_ELEMS: usize = 20_000;
+
+fn range(start: &BigInt, end: &BigInt, step: &BigInt) -> R<Vec<V>> {
+    if step.is_zero() {
+        return unknown("range with zero step");
+    }
+    let mut out = Vec::new();
+    let mut cur = start.clone();
+    loop {
+        let done = if step.is_negative() { &cur <= end } else { &cur >= end };
+        if done {
+            break;
+        }
+        out.push(V::Int(cur.clone()));
+        cur += step;
+        if out.len() > MAX_ELEMS {
+            return unknown("range too long for the model");
+        }
+    }
+    Ok(out)
+}
+
+fn as_int(v: &V) -> R<BigInt> {
+    match v {
+        V::Int(n) => Ok(n.clone()),
+        x if is_num(x) => throw("value error: bad number to int"),
+        _ => throw("argument error: number expected"),
+    }
+}
+
+/// `to_rc_vec_obj`: a list as it is, any other sequence by iteration
+fn base_list(m: &mut Model, v: &V) -> R<Vec<V>> {
+    match v {
+        V::List(xs) => Ok(xs.clone()),
+        V::Dict(_) => unknown("combinatorial stream over dict (hash order)"),
+        V::Stream(s) if Model::stream_is_infinite(s) => unknown("combinatorial stream over infinite stream"),
+        V::Vector(_) | V::Str(_) | V::Bytes(_) | V::Stream(_) => m.iterate(v, "to_rc_vec"),
+        _ => throw("type error: not iterable"),
+    }
+}
+
+fn next_permutation(idx: &mut Vec<usize>) -> bool {
+    // lexicographic successor
+    if idx.len() < 2 {
+        return false;
+    }
+    let mut i = idx.len() - 1;
+    while i > 0 && idx[i - 1] >= idx[i] {
+        i -= 1;
+    }
+    if i == 0 {
+        return false;
+    }
+    let mut j = idx.len() - 1;
+    while idx[j] <= idx[i - 1] {
+        j -= 1;
+    }
+    idx.swap(i - 1, j);
+    idx[i..].reverse();
+    true
+}
+
+pub fn call_stream_builtin(m: &mut Model, site: &ScopeRef, name: &str, mut args: Vec<V>) -> R<V> {
+    let _ = site;
+    match name {
+        "to" | "til" => match args.len() {
+            1 => unknown("range partial application"),
+            2 => match (&args[0], &args[1]) {
+                (a, b) if is_num(a) && is_num(b) => {
+                    let s = as_int(a)?;
+                    let e = as_int(b)?;
+                    let end = if name == "to" { e + 1 } else { e };
+                    Ok(V::Stream(StreamV::Fin(range(&s, &end, &BigInt::from(1))?)))
+                }
+                (V::Str(_), V::Str(_)) => unknown("string range"),
+                (_, V::Func(_)) if name == "to" => unknown("to <type> conversion sugar"),
+                _ => throw("argument error: range"),
+            },
+            3 => {
+                if !(is_num(&args[0]) && is_num(&args[1]) && is_num(&args[2])) {
+                    return throw("argument error: range");
+                }
+                let s = as_int(&args[0])?;
+                let e = as_int(&args[1])?;
+                let st = as_int(&args[2])?;
+                let end = if name == "to" {
+                    if st.is_negative() {
+                        e - 1
+                    } else {
+                        e + 1
+                    }
+                } else {
+                    e
+                };
+                Ok(V::Stream(StreamV::Fin(range(&s, &end, &st)?)))
+            }
+            _ => throw("argument error: range"),
+        },
+        "iota" => {
+            if args.len() != 1 {
+                return throw("type error: expected one argument");
+            }
+            match &args[0] {
+                V::Int(n) => Ok(V::Stream(StreamV::Iota(n.clone()))),
+                _ => throw("argument error: iota"),
+            }
+        }
+        "repeat" => {
+            if args.len() != 1 {
+                return throw("type error: expected one argument");
+            }
+            Ok(V::Stream(StreamV::Repeat(Box::new(args.pop().unwrap()))))
+        }
+        "cycle" => {
+            if args.len() != 1 {
+                return throw("type error: expected one argument");
+            }
+            let xs = base_list(m, &args[0])?;
+            if xs.is_empty() {
+                return throw("empty error: cycle of empty sequence");
+            }
+            Ok(V::Stream(StreamV::Cycle(xs, 0)))
+        }
+        "iterate" => {
+            if args.len() != 2 {
+                return unknown("iterate arity");
+            }
+            match &args[1] {
+                V::Func(f) => Ok(V::Stream(StreamV::Iterate(Box::new(args[0].clone()), f.clone()))),
+                _ => throw("argument error: iterate"),
+            }
+        }
+        "lazy_map" | "lazy_filter" => {
+            if args.len() != 2 {
+                return unknown("lazy hof arity");
+            }
+            match (&args[0], &args[1]) {
+                (V::Stream(s), V::Func(f)) => Ok(V::Stream(if name == "lazy_map" {
+                    StreamV::Map(Box::new(s.clone()), f.clone())
+                } else {
+                    StreamV::Filter(Box::new(s.clone()), f.clone())
+                })),
+                _ => throw("argument error: lazy hof"),
+            }
+        }
+        "permutations" => {
+            if args.len() != 1 {
+                return throw("type error: expected one argument");
+            }
+            let xs = base_list(m, &args[0])?;
+            if xs.len() > 6 {
+                return unknown("too many permutations for the model");
+            }
+            let mut idx: Vec<usize> = (0..xs.len()).collect();
+            let mut out = Vec::new();
+            loop {
+                out.push(V::List(idx.iter().map(|i| xs[*i].clone()).collect()));
+                if !next_permutation(&mut idx) {
+                    break;
+                }
+            }
+            Ok(V::Stream(StreamV::Fin(out)))
+        }
+        "combinations" => {
+            if args.len() != 2 {
+                return unknown("combinations arity");
+            }
+            let xs = base_list(m, &args[0])?;
+            let k = match &args[1] {
+                V::Int(n) => match n.to_usize() {
+                    Some(k) => k,
+                    None => return throw("value error: bad combo"),
+                },
+                x if is_num(x) => return throw("value error: bad combo"),
+                _ => return throw("argument error: combinations"),
+            };
+            if xs.len() > 10 || k > 12 {
+                return unknown("too many combinations for the model");
+            }
+            let mut out = Vec::new();
+            if k <= xs.len() {
+                let mut idx: Vec<usize> = (0..k).collect();
+                loop {
+                    out.push(V::List(idx.iter().map(|i| xs[*i].clone()).collect()));
+                    // lexicographic successor
+                    let mut i = k;
+                    let mut moved = false;
+                    while i > 0 {
+                        i -= 1;
+                        if idx[i] + (k - i) < xs.len() {
+                            idx[i] += 1;
+                            for j in i + 1..k {
+                                idx[j] = idx[j - 1] + 1;
+                            }
+                            moved = true;
+                            break;
+                        }
+                    }
+                    if !moved {
+                        break;
+                    }
+                }
+            }
+            Ok(V::Stream(StreamV::Fin(out)))
+        }
+        "subsequences" => {
+            if args.len() != 1 {
+                return throw("type error: expected one argument");
+            }
+            let xs = base_list(m, &args[0])?;
+            if xs.len() > 10 {
+                return unknown("too many subsequences for the model");
+            }
+            let n = xs.len();
+            let mut out = Vec::new();
+            // big-endian binary counting: the last element is the least significant bit
+            for mask in 0..(1usize << n) {
+                let mut sub = Vec::new();
+                for (i, x) in xs.iter().enumerate() {
+                    if mask & (1 << (n - 1 - i)) != 0 {
+                        sub.push(x.clone());
+                    }
+                }
+                out.push(V::List(sub));
+            }
+            Ok(V::Stream(StreamV::Fin(out)))
+        }
+        "^^" => {
+            if args.len() != 2 {
+                return unknown("^^ arity");
+            }
+            let xs = base_list(m, &args[0])?;
+            let k = match &args[1] {
+                V::Int(n) => match n.to_usize() {
+                    Some(k) => k,
+                    None => return throw("value error: bad lazy pow"),
+                },
+                x if is_num(x) => return throw("value error: bad lazy pow"),
+                _ => return throw("argument error: ^^"),
+            };
+            if xs.is_empty() {
+                return Ok(V::Stream(StreamV::Fin(vec![])));
+            }
+            if k > 6 || xs.len().pow(k as u32) > 5000 {
+                return unknown("cartesian power too large for the model");
+            }
+            let mut out = Vec::new();
+            let mut idx = vec![0usize; k];
+            loop {
+                out.push(V::List(idx.iter().map(|i| xs[*i].clone()).collect()));
+                // odometer, last coordinate fastest
+                let mut i = k;
+                let mut moved = false;
+                while i > 0 {
+                    i -= 1;
+                    idx[i] += 1;
+                    if idx[i] == xs.len() {
+                        idx[i] = 0;
+                    } else {
+                        moved = true;
+                        break;
+                    }
+                }
+                if !moved {
+                    break;
+                }
+            }
+            Ok(V::Stream(StreamV::Fin(out)))
+        }
+        "take" | "drop" => {
+            if args.len() != 2 {
+                return unknown("take/drop arity");
+            }
+            if let V::Func(_) = &args[1] {
+                return unknown("take/drop while");
+            }
+            match &args[0] {
+                V::List(_) | V::Str(_) | V::Vector(_) | V::Bytes(_) | V::Stream(_) | V::Dict(_) => {
+                    if name == "take" {
+                        m.slice(&args[0], None, Some(&args[1]))
+                    } else {
+                        m.slice(&args[0], Some(&args[1]), None)
+                    }
+                }
+                _ => throw("type error: can't slice"),
+            }
+        }
+        "tail" | "butlast" => unknown("tail/butlast"),
+        "enumerate" | "zip" | "flatten" | "any" | "all" | "count" | "group_all" | "join" | "only" | "find"
+        | "locate" | "uncons" | "unsnoc" | "**" | "second" | "third" => {
+            unknown(&format!("builtin not modelled: {}", name))
+        }
+        _ => unknown(&format!("builtin not modelled: {}", name)),
+    }
+}
+
+#[allow(dead_code)]
+fn _keep(_: Rc<FuncV>) {}
